@@ -1013,4 +1013,44 @@ theorem getElem?_take_some {α} {l : List α} {n i : Nat} {a : α} (h : (l.take 
   · exact ⟨by assumption, h⟩
   · cases h
 
+namespace Spec
+
+theorem replay_keysUnique {eqv : ObjEq} : ∀ {es : List LinEv} {T0 T : List Obj},
+    replay eqv es T0 = some T → KeysUnique T0 → KeysUnique T
+  | [], T0, T, h, hu => by simp [replay] at h; subst h; exact hu
+  | e :: es, T0, T, h, hu => by
+    simp only [replay] at h
+    split at h
+    · exact replay_keysUnique h (register_keysUnique _ _ hu)
+    · cases h
+
+theorem replay_prefix {eqv : ObjEq} : ∀ {es : List LinEv} {T0 T : List Obj},
+    replay eqv es T0 = some T → ∃ x, T = T0 ++ x
+  | [], T0, T, h => by simp [replay] at h; subst h; exact ⟨[], by simp⟩
+  | e :: es, T0, T, h => by
+    simp only [replay] at h
+    split at h
+    · obtain ⟨x, hx⟩ := replay_prefix h
+      obtain ⟨y, hy⟩ := register_prefix eqv T0 e.op.obj (injOf e.res)
+      exact ⟨y ++ x, by rw [hx, hy, List.append_assoc]⟩
+    · cases h
+
+/-- every event of a valid linearisation is a `Spec.register` call on the table built by the events before it -/
+theorem replay_split {eqv : ObjEq} {pre post : List LinEv} {e : LinEv} {Tend : List Obj}
+    (h : replay eqv (pre ++ e :: post) [] = some Tend) :
+    ∃ T, replay eqv pre [] = some T ∧ KeysUnique T ∧
+      (register eqv T e.op.obj (injOf e.res)).2 = e.res ∧
+      ∃ x, Tend = (register eqv T e.op.obj (injOf e.res)).1 ++ x := by
+  rw [replay_append] at h
+  cases hp : replay eqv pre [] with
+  | none => rw [hp] at h; cases h
+  | some T =>
+    rw [hp] at h
+    simp only [Option.bind_some, replay] at h
+    split at h
+    · rename_i hr
+      refine ⟨T, rfl, replay_keysUnique hp (by intro i j oi oj hi; simp at hi), hr, replay_prefix h⟩
+    · cases h
+end Spec
+
 end MjProof.GlobalTable
